@@ -311,7 +311,11 @@ func ipGenerator(ctx context.Context, inet *net.IPNet, ipCh chan<- uint32) {
 	if maskSz <= 1 {
 		return // skip point-to-point connections
 	} else if maskSz >= 31 {
-		ipCh <- binary.BigEndian.Uint32(inet.IP)
+		select {
+		case <-ctx.Done():
+			// bail if we have been cancelled
+		case ipCh <- binary.BigEndian.Uint32(inet.IP):
+		}
 		return
 	}
 
